@@ -98,7 +98,7 @@ func main() {
 		h.model = m
 		defer m.Close()
 	}
-	run.SetRule("direct: every subset E of a 4(5)-cursor universe in seeded order × after,before ∈ {absent} ∪ every integer position (members and gaps) × first,last ∈ {absent,0..|E|+1}; served (four APIs built in one process — plain connections built before, next to, after customised ones — the API seeded per case): every subset of a 4(5)-cursor universe × {all,window}×{sync,promise} × (first|last ∈ 0..|E|+1) × after,before ∈ {absent} ∪ cursors(E) ∪ 3 foreign emitted cursors, getter policy / selection / argument spelling seeded, all four selections on the zero-edge path; count-error combinations; connections with a non-hashable cursor type and with an interface-typed cursor component (int64/uint32/float64/string keys), forward-only, backward-only and customised (default first/last, required extra argument) connections × counts × cursors on every API; edges selected with four edge fields (node, label, weight, even); arbitrary cursor strings; forward and backward walks for every page size 1..|E|+1; random larger sets; codec round trips. distinct = distinct canonical case; non-trivial = the selected page is a non-empty proper sub-list of E (direct/served), an arbitrary cursor string is involved, or the walk needs more than one page")
+	run.SetRule("direct: every subset E of a 4(5)-cursor universe in seeded order × after,before ∈ {absent} ∪ every integer position (members and gaps) × first,last ∈ {absent,0..|E|+1}; served (four APIs built in one process — plain connections built before, next to, after customised ones — the API seeded per case): every subset of a 4(5)-cursor universe × {all,window}×{sync,promise} × (first|last ∈ 0..|E|+1) × after,before ∈ {absent} ∪ cursors(E) ∪ 3 foreign emitted cursors, getter policy / selection / argument spelling seeded, all four selections on the zero-edge path; count-error combinations; connections with a non-hashable cursor type and with an interface-typed cursor component (int64/uint32/float64/string keys), forward-only, backward-only and customised (default first/last, required extra argument) connections × counts × cursors on every API; edges selected with four edge fields (node, label, weight, even); arbitrary cursor strings; forward and backward walks for every page size 1..|E|+1; random larger sets; codec round trips; codec tie (base64 and msgpack model against encoding/base64 and SerializeCursor/DeserializeCursor: exhaustive short byte strings and texts, every scalar type at every width boundary, structs, hand-built and corrupted msgpack); one connection field resolved 2–3 times in one request (list of parents / aliases with a custom argument), each resolution with its own edge set. distinct = distinct canonical case; non-trivial = the selected page is a non-empty proper sub-list of E (direct/served), an arbitrary cursor string is involved, the walk needs more than one page, a codec operation other than encoding nothing, or at least two resolutions have edges")
 
 	if run.Replay != "" {
 		var c Case
@@ -156,6 +156,11 @@ func main() {
 		v := v
 		h.check(Case{Kind: "codec", CodecAny: &v})
 	}
+
+	// ---- codec tie: base64 and msgpack model against encoding/base64 and SerializeCursor/DeserializeCursor (codec.go)
+	tieStart := run.Elapsed()
+	h.genCodecTie()
+	run.Note("codec tie: %d cases in %.1f s", run.Distribution("kind:codectie"), (run.Elapsed() - tieStart).Seconds())
 
 	// ---- (i) pagination.EdgesToReturn, exhaustive
 	du := []int{1, 3, 5, 7}
@@ -309,6 +314,8 @@ func main() {
 			}
 		}
 	}
+	// ---- one connection field resolved several times in one request (multi.go)
+	h.genMulti()
 	run.SetExhaustive(true)
 
 	// ---- arbitrary cursor strings (never crash: error or some position)
